@@ -58,7 +58,7 @@ def select(prop, tier):
 def do_check(pid, tier, keep=False, only=None):
     t0 = time.time()
     props = load_props()
-    if pid not in props:
+    if pid not in props or props[pid].get('not_applicable'):
         print(f'unknown or unclaimed property {pid}')
         return EXIT_UNDECIDED
     prop = props[pid]
